@@ -757,6 +757,15 @@ class CallGraph:
     def resolve_call(self, fi: FuncInfo, n: ast.Call, lt: LocalTypes, params: set[str]) -> CallSite:
         f = n.func
         if isinstance(f, ast.Name):
+            # a function defined inside this function (or inside an enclosing one)
+            q = fi.qualname
+            while True:
+                cand = f"{q}.<locals>.{f.id}"
+                if cand in fi.module.functions:
+                    return CallSite(fi, n, "tucan", fi.module.functions[cand])
+                if ".<locals>." not in q:
+                    break
+                q = q.rsplit(".<locals>.", 1)[0]
             if f.id in params and f.id not in fi.module.functions:
                 return CallSite(fi, n, "param", f.id)
             r = self.repo.resolve(fi.module, f.id)
